@@ -42,6 +42,9 @@ def check(ck: Checker) -> None:
 
     _r4.tree_load_rejects_only_nonlist(ck, "C02.load")
     _r4.failures_always_raised(ck, "C02.checkout.pair")
+    from . import round7 as _r7
+
+    _r7.from_list_splits_raw_relpath(ck, "C02.sep")
 
 
 
